@@ -332,6 +332,111 @@ theorem C18_passthrough_unbuffered (c : Cfg) (script : List HOp)
   unfold runHandler finish
   simp [k1, nb, k2]
 
+/-! ## pass-through when the body is buffered and stays below the limit -/
+
+/-- **C18_passthrough_buffered**: response body access on, a processable content type, no rule of phase 3
+    or 4 interrupting and a body that stays below SecResponseBodyLimit: whatever the handler does — any
+    sequence of WriteHeader, Write and Flush calls — the client receives exactly the bytes the handler
+    wrote, after the response processor has released the buffer, and nothing before. -/
+theorem C18_passthrough_buffered (c : Cfg) (script : List HOp)
+    (ha : c.access = true) (ha3 : c.access3 = none) (hp : c.processable = true)
+    (h3 : ∀ code, c.p3 code = none) (h4 : ∀ b, c.p4 b = none)
+    (hlen : (writesOf script).length < c.limit) :
+    (runHandler c script).downBody = writesOf script ∧ (runHandler c script).intr = none := by
+  have hbuf : ∀ s : St, s.wroteBuffered = false → buffering c s = true := by
+    intro s h; simp [buffering, accNow, ha, ha3, hp, h]
+  have key : ∀ (ops : List HOp) (s : St), s.intr = none → s.downBody = [] → s.wroteBuffered = false →
+      s.buf.length + (writesOf ops).length < c.limit →
+      (ops.foldl (step c) s).intr = none ∧ (ops.foldl (step c) s).downBody = [] ∧
+      (ops.foldl (step c) s).wroteBuffered = false ∧ (ops.foldl (step c) s).buf = s.buf ++ writesOf ops := by
+    intro ops
+    induction ops with
+    | nil => intro s h1 h2 h3' _; simp [writesOf, h1, h2, h3']
+    | cons op ops ih =>
+      intro s hi hd hw hl
+      have whI : ∀ code, (writeHeader c s code).intr = none := by
+        intro code
+        unfold writeHeader
+        by_cases hwh : s.wroteHeader = true
+        · simp [hwh, hi]
+        · have hwh' : s.wroteHeader = false := by simpa using hwh
+          simp only [hwh', Bool.false_eq_true, if_false]
+          unfold processResponseHeaders
+          by_cases hp3 : s.phase3 = true
+          · simp [hp3, hi]; (repeat' split) <;> simp [hi]
+          · simp [hp3, hi, h3]; (repeat' split) <;> simp
+      cases op with
+      | writeHeader n =>
+        obtain ⟨hb, hwb, hbf, _, _⟩ := writeHeader_facts c s n
+        simp only [List.foldl_cons, step, writesOf] at hl ⊢
+        have := ih (writeHeader c s n) (whI n) (by rw [hb, hd]) (by rw [hwb, hw]) (by rw [hbf]; exact hl)
+        rw [hbf] at this; exact this
+      | flush =>
+        obtain ⟨hb, hwb, hbf, _, _⟩ := writeHeader_facts c s 200
+        have e : (flush c s).intr = none ∧ (flush c s).downBody = [] ∧ (flush c s).wroteBuffered = false ∧ (flush c s).buf = s.buf := by
+          unfold flush
+          by_cases hwh : s.wroteHeader = true
+          · simp [hwh]; split <;> simp [hi, hd, hw]
+          · have hwh' : (!s.wroteHeader) = true := by simp at hwh; simp [hwh]
+            simp only [hwh', if_true]; split <;> simp [whI, hb, hd, hwb, hw, hbf]
+        simp only [List.foldl_cons, step, writesOf] at hl ⊢
+        have := ih (flush c s) e.1 e.2.1 e.2.2.1 (by rw [e.2.2.2]; exact hl)
+        rw [e.2.2.2] at this; exact this
+      | write b =>
+        simp only [List.foldl_cons, step, writesOf, List.length_append] at hl ⊢
+        obtain ⟨hb, hwb, hbf, _, hid⟩ := writeHeader_facts c s 200
+        have e : (write c s b).intr = none ∧ (write c s b).downBody = [] ∧ (write c s b).wroteBuffered = false ∧
+            (write c s b).buf = s.buf ++ b := by
+          have wrb : ∀ t : St, t.intr = none → t.buf = s.buf →
+              writeResponseBody c t b = ({ t with buf := t.buf ++ b }, none, b.length) := by
+            intro t ti tb
+            unfold writeResponseBody
+            have g1 : (c.limit == t.buf.length) = false := by
+              simp only [beq_eq_false_iff_ne, ne_eq]; rw [tb]; omega
+            have g2 : ¬ (t.buf.length + b.length ≥ c.limit) := by rw [tb]; omega
+            simp [g1, g2, ti]
+          unfold write
+          simp only [hi, Option.isSome_none, Bool.false_eq_true, if_false]
+          by_cases hwh : s.wroteHeader = true
+          · have hwh' : (!s.wroteHeader) = false := by simp [hwh]
+            simp only [hwh', Bool.false_eq_true, if_false, hi, Option.isSome_none, hbuf s hw, if_true, wrb s hi rfl,
+              beq_self_eq_true]
+            simp [hi, hd, hw]
+          · have hwh' : (!s.wroteHeader) = true := by simp at hwh; simp [hwh]
+            simp only [hwh', if_true, whI 200, Option.isSome_none, Bool.false_eq_true, if_false,
+              hbuf (writeHeader c s 200) (by rw [hwb, hw]), wrb (writeHeader c s 200) (whI 200) hbf, beq_self_eq_true]
+            simp [whI 200, hb, hd, hwb, hw, hbf]
+        have := ih (write c s b) e.1 e.2.1 e.2.2.1 (by rw [e.2.2.2]; simp; omega)
+        rw [e.2.2.2, List.append_assoc] at this; exact this
+  obtain ⟨k1, k2, k3, k4⟩ := key script {} rfl rfl rfl (by simpa using hlen)
+  unfold runHandler
+  generalize script.foldl (step c) {} = F at k1 k2 k3 k4 ⊢
+  have hq2 : (processResponseBody c F).2 = none ∧ (processResponseBody c F).1.intr = none := by
+    unfold processResponseBody
+    simp only [k1, Option.isSome_none, Bool.false_eq_true, if_false]
+    split <;> simp [h4, k1]
+  obtain ⟨g1, g2, g3, _, _⟩ := prb_frame c F
+  unfold finish
+  simp only [k1, Option.isSome_none, Bool.false_eq_true, if_false, hbuf _ k3, if_true]
+  rcases hq : processResponseBody c F with ⟨s1, it⟩
+  rw [hq] at hq2 g1 g2 g3
+  simp only at hq2 g1 g2 g3
+  obtain ⟨q1, q2⟩ := hq2
+  subst q1
+  simp only [writeBufferedDown, g2, k3, Bool.false_eq_true, if_false]
+  constructor
+  · simp [flushWriteHeader]
+    split <;> simp [g1, k2, g3, k4]
+  · simp [flushWriteHeader]
+    split <;> simp [q2]
+
+/-- the premises are met by a configuration that buffers: two writes of 3 and 2 bytes under a limit of 100 reach the
+    client only when the response processor releases them -/
+example :
+    let c : Cfg := ⟨true, none, true, 100, true, fun _ => none, fun _ => none⟩
+    (runHandler c [.write [1, 2, 3], .flush, .write [4, 5]]).downBody = [1, 2, 3, 4, 5] ∧
+    ([HOp.write [1, 2, 3], .flush, .write [4, 5]].foldl (step c) {}).downBody = [] := by decide
+
 /-! non-vacuity: a phase-4 block after two buffered writes delivers nothing; unbuffered passes through -/
 def C18_cfg (acc : Bool) : Cfg := ⟨acc, none, true, 100, true, fun _ => none, fun b => if b.length > 3 then some ⟨"deny", 502⟩ else none⟩
 example : (runHandler (C18_cfg true) [.write [1, 2], .flush, .write [3, 4]]).downBody = [] ∧
